@@ -98,6 +98,7 @@ static void do_call(struct json_tokener *tok, size_t i, size_t j, struct outcome
 	char *buf = mc_guard_buf(j - i);
 	memcpy(buf, T + i, j - i);
 	calls++;
+	errno = mc_errno_pre;
 	struct json_object *obj = json_tokener_parse_ex(tok, buf, (int)(j - i));
 	enum json_tokener_error e = json_tokener_get_error(tok);
 	size_t pe = json_tokener_get_parse_end(tok);
@@ -234,6 +235,7 @@ static void probe_call(struct json_tokener *tok, const char *p, struct outcome *
 	char *buf = mc_guard_buf(n);
 	memcpy(buf, p, n);
 	calls++;
+	errno = mc_errno_pre;
 	struct json_object *obj = json_tokener_parse_ex(tok, buf, (int)n);
 	enum json_tokener_error e = json_tokener_get_error(tok);
 	memset(o, 0, sizeof *o);
